@@ -74,7 +74,7 @@ func PanicSites(r *core.Run, sc *Scope, bce *BCE, table string) {
 					o.Auto("%s", why)
 				} else if why2, ok2 := callersGuarantee(r, f, x); ok2 {
 					o.Auto("%s", why2)
-				} else if !r.Table(table, o) {
+				} else if !r.Table(table, o) && !tableAtCallers(r, table, sc, f, o, x, "index ") {
 					o.Fail("no dominating guard recognised for this index (%s)", why)
 				}
 			case *ast.SliceExpr:
@@ -89,7 +89,7 @@ func PanicSites(r *core.Run, sc *Scope, bce *BCE, table string) {
 				o := r.Add("R-PANIC/P2", siteKey(f, "slice "+core.NormExpr(info, x)), x.Pos(), "slice "+core.ExprStr(x))
 				if why, ok := sliceSafe(info, f, x); ok {
 					o.Auto("%s", why)
-				} else if !r.Table(table, o) {
+				} else if !r.Table(table, o) && !tableAtCallers(r, table, sc, f, o, x, "slice ") {
 					o.Fail("no dominating guard recognised for this slice expression (%s)", why)
 				}
 			case *ast.TypeAssertExpr:
@@ -258,7 +258,311 @@ func indexSafe(info *types.Info, f *ScopeFunc, x *ast.IndexExpr) (string, bool) 
 			}
 		}
 	}
+	if why, ok := finderIndex(info, f, x, facts); ok {
+		return why, true
+	}
+	if why, ok := mirroredIndex(info, f, x, facts); ok {
+		return why, true
+	}
 	return fmt.Sprintf("index %s has no recognised relation to len(%s)", is, xs), false
+}
+
+// finderIndex: `i := find(xs, …)` where find returns a negative constant or an
+// index of a range over its slice parameter, the negative outcome is excluded
+// on every path to xs[i], i is not changed and xs only grows (self-append) in
+// the function.
+func finderIndex(info *types.Info, f *ScopeFunc, x *ast.IndexExpr, facts *Facts) (string, bool) {
+	id, ok := core.Unparen(x.Index).(*ast.Ident)
+	if !ok {
+		return "", false
+	}
+	obj := info.Uses[id]
+	if obj == nil {
+		return "", false
+	}
+	if !(facts.GeZero[id.Name] || facts.False[id.Name+" < 0"] || facts.True[id.Name+" >= 0"] || facts.False[id.Name+" == -1"] || facts.True[id.Name+" != -1"]) {
+		return "", false
+	}
+	// single definition from a finder call
+	var def *ast.CallExpr
+	var defPos token.Pos
+	n := 0
+	ast.Inspect(f.Body, func(nd ast.Node) bool {
+		as, ok := nd.(*ast.AssignStmt)
+		if !ok {
+			return true
+		}
+		for i, l := range as.Lhs {
+			li, ok := l.(*ast.Ident)
+			if !ok || (info.Defs[li] != obj && info.Uses[li] != obj) {
+				continue
+			}
+			n++
+			if len(as.Lhs) == len(as.Rhs) {
+				def, _ = core.Unparen(as.Rhs[i]).(*ast.CallExpr)
+				defPos = as.Pos()
+			}
+		}
+		return true
+	})
+	if n != 1 || def == nil {
+		return "", false
+	}
+	fn := core.CalleeFunc(info, def)
+	if fn == nil || fn.Pkg() != f.Pkg.Types {
+		return "", false
+	}
+	fd := core.DeclOf(f.Pkg, fn.Origin())
+	pidx := indexFinderParam(info, fd)
+	if pidx < 0 || pidx >= len(def.Args) || core.ExprStr(def.Args[pidx]) != core.ExprStr(x.X) {
+		return "", false
+	}
+	if facts.False[id.Name+" == -1"] || facts.True[id.Name+" != -1"] {
+		// only sound when -1 is the finder's one negative result
+		if !finderOnlyMinusOne(info, fd) {
+			return "", false
+		}
+	}
+	// the slice only grows
+	xs := core.ExprStr(x.X)
+	grows := true
+	ast.Inspect(f.Body, func(nd ast.Node) bool {
+		as, ok := nd.(*ast.AssignStmt)
+		if !ok {
+			return true
+		}
+		for i, l := range as.Lhs {
+			if core.ExprStr(l) != xs || as.Pos() < defPos {
+				continue
+			}
+			if len(as.Lhs) != len(as.Rhs) {
+				grows = false
+				continue
+			}
+			c, ok := core.Unparen(as.Rhs[i]).(*ast.CallExpr)
+			if !ok || core.CalleeName(info, c) != "builtin.append" || core.ExprStr(c.Args[0]) != xs {
+				grows = false
+			}
+		}
+		return true
+	})
+	if !grows {
+		return "", false
+	}
+	return fmt.Sprintf("%s is the result of %s(%s, …), which returns an index of that slice or a negative number; the negative outcome is excluded here and %s only grows", id.Name, fn.Name(), xs, xs), true
+}
+
+// indexFinderParam: the function's returns are negative integer constants or
+// the key of a range (or counted loop) over one slice parameter; returns the
+// index of that parameter, or -1.
+func indexFinderParam(info *types.Info, fd *ast.FuncDecl) int {
+	if fd == nil || fd.Body == nil || fd.Type.Results == nil || len(fd.Type.Results.List) != 1 {
+		return -1
+	}
+	var params []types.Object
+	for _, fl := range fd.Type.Params.List {
+		for _, nm := range fl.Names {
+			params = append(params, info.Defs[nm])
+		}
+	}
+	which := -1
+	ok := true
+	var loops []*ast.RangeStmt
+	var visit func(n ast.Node) bool
+	visit = func(n ast.Node) bool {
+		switch x := n.(type) {
+		case *ast.FuncLit:
+			return false
+		case *ast.RangeStmt:
+			loops = append(loops, x)
+			ast.Inspect(x.Body, visit)
+			loops = loops[:len(loops)-1]
+			return false
+		case *ast.ReturnStmt:
+			if len(x.Results) != 1 {
+				ok = false
+				return true
+			}
+			if k, isC := core.ConstInt(info, x.Results[0]); isC {
+				if k >= 0 {
+					ok = false
+				}
+				return true
+			}
+			id, isID := core.Unparen(x.Results[0]).(*ast.Ident)
+			if !isID {
+				ok = false
+				return true
+			}
+			found := false
+			for _, l := range loops {
+				k, isK := l.Key.(*ast.Ident)
+				if !isK || info.Defs[k] == nil || info.Defs[k] != info.Uses[id] {
+					continue
+				}
+				xid, isX := core.Unparen(l.X).(*ast.Ident)
+				if !isX {
+					continue
+				}
+				for pi, p := range params {
+					if p != nil && info.Uses[xid] == p {
+						if _, isSlice := p.Type().Underlying().(*types.Slice); isSlice && (which == -1 || which == pi) {
+							which, found = pi, true
+						}
+					}
+				}
+			}
+			if !found {
+				ok = false
+			}
+		case *ast.AssignStmt:
+			// the slice parameter must not be re-bound
+			for _, l := range x.Lhs {
+				if id, isID := l.(*ast.Ident); isID {
+					for _, p := range params {
+						if p != nil && info.Uses[id] == p {
+							ok = false
+						}
+					}
+				}
+			}
+		}
+		return true
+	}
+	ast.Inspect(fd.Body, visit)
+	if !ok {
+		return -1
+	}
+	return which
+}
+
+func finderOnlyMinusOne(info *types.Info, fd *ast.FuncDecl) bool {
+	only := true
+	ast.Inspect(fd.Body, func(n ast.Node) bool {
+		if ret, ok := n.(*ast.ReturnStmt); ok && len(ret.Results) == 1 {
+			if k, isC := core.ConstInt(info, ret.Results[0]); isC && k != -1 {
+				only = false
+			}
+		}
+		return true
+	})
+	return only
+}
+
+// mirroredIndex: X[len(S)-1-i] (in any arithmetic spelling, through locals
+// defined once) where i is a range index over S and X is S or was made with
+// len(S): 0 <= len(S)-1-i <= len(S)-1.
+func mirroredIndex(info *types.Info, f *ScopeFunc, x *ast.IndexExpr, facts *Facts) (string, bool) {
+	type lin struct {
+		lens map[string]int // len(S) terms
+		vars map[string]int
+		k    int
+		ok   bool
+	}
+	var eval func(e ast.Expr, depth int) lin
+	add := func(a, b lin, sign int) lin {
+		out := lin{lens: map[string]int{}, vars: map[string]int{}, k: a.k + sign*b.k, ok: a.ok && b.ok}
+		for s, c := range a.lens {
+			out.lens[s] += c
+		}
+		for s, c := range b.lens {
+			out.lens[s] += sign * c
+		}
+		for s, c := range a.vars {
+			out.vars[s] += c
+		}
+		for s, c := range b.vars {
+			out.vars[s] += sign * c
+		}
+		return out
+	}
+	eval = func(e ast.Expr, depth int) lin {
+		e = core.Unparen(e)
+		if k, ok := core.ConstInt(info, e); ok {
+			return lin{lens: map[string]int{}, vars: map[string]int{}, k: int(k), ok: true}
+		}
+		if le, ok := lenArg(info, e); ok {
+			return lin{lens: map[string]int{core.ExprStr(le): 1}, vars: map[string]int{}, ok: true}
+		}
+		switch y := e.(type) {
+		case *ast.BinaryExpr:
+			switch y.Op {
+			case token.ADD:
+				return add(eval(y.X, depth), eval(y.Y, depth), 1)
+			case token.SUB:
+				return add(eval(y.X, depth), eval(y.Y, depth), -1)
+			}
+		case *ast.Ident:
+			obj := info.Uses[y]
+			// a local with exactly one definition that is not a range key: look through it
+			if obj != nil && depth < 4 {
+				var def ast.Expr
+				n := 0
+				isKey := false
+				ast.Inspect(f.Body, func(nd ast.Node) bool {
+					switch z := nd.(type) {
+					case *ast.AssignStmt:
+						for i, l := range z.Lhs {
+							if li, ok := l.(*ast.Ident); ok && (info.Defs[li] == obj || info.Uses[li] == obj) {
+								n++
+								if len(z.Lhs) == len(z.Rhs) {
+									def = z.Rhs[i]
+								}
+							}
+						}
+					case *ast.IncDecStmt:
+						if li, ok := z.X.(*ast.Ident); ok && info.Uses[li] == obj {
+							n += 2
+						}
+					case *ast.RangeStmt:
+						if k, ok := z.Key.(*ast.Ident); ok && info.Defs[k] == obj {
+							isKey = true
+						}
+					}
+					return true
+				})
+				if !isKey && n == 1 && def != nil {
+					return eval(def, depth+1)
+				}
+			}
+			return lin{lens: map[string]int{}, vars: map[string]int{y.Name: 1}, ok: true}
+		}
+		return lin{ok: false}
+	}
+	l := eval(x.Index, 0)
+	if !l.ok || l.k != -1 {
+		return "", false
+	}
+	var S, I string
+	for s, c := range l.lens {
+		if c == 0 {
+			continue
+		}
+		if c != 1 || S != "" {
+			return "", false
+		}
+		S = s
+	}
+	for v, c := range l.vars {
+		if c == 0 {
+			continue
+		}
+		if c != -1 || I != "" {
+			return "", false
+		}
+		I = v
+	}
+	if S == "" || I == "" || facts.LtLen[I] != S {
+		return "", false
+	}
+	xs := core.ExprStr(x.X)
+	if xs != S && facts.MakeLen[xs] != S {
+		return "", false
+	}
+	if xs != S && !stableSince(info, f, x.X, facts.factPos["make:"+xs], x) {
+		return "", false
+	}
+	return fmt.Sprintf("index is len(%s)-1-%s with %s a range index over %s, and %s has len(%s) elements", S, I, I, S, xs, S), true
 }
 
 func idxStable(info *types.Info, f *ScopeFunc, idx ast.Expr, from token.Pos, site ast.Node) bool {
@@ -534,4 +838,109 @@ func callersGuarantee(r *core.Run, f *ScopeFunc, x *ast.IndexExpr) (string, bool
 		return fmt.Sprintf("%s is unexported and every one of its %d call(s) in the package passes a value whose length is known to be at least %d at the call", fd.Name.Name, callers, need), true
 	}
 	return "", false
+}
+
+// tableAtCallers: an index or slice expression in an unexported helper that
+// mentions the helper's parameters is the expression its callers used to
+// contain, with the arguments in place of the parameters. When every static
+// call site of the helper (in the package, the helper not used as a value)
+// has a recorded reason for the expression so instantiated — keyed under the
+// calling function, as it was before the helper was extracted — those reasons
+// carry over.
+func tableAtCallers(r *core.Run, table string, sc *Scope, f *ScopeFunc, o *core.Oblig, x ast.Expr, kind string) bool {
+	fd, ok := f.Node.(*ast.FuncDecl)
+	if !ok || fd.Name.IsExported() || fd.Type.Params == nil {
+		return false
+	}
+	info := f.Pkg.TypesInfo
+	var params []types.Object
+	for _, fl := range fd.Type.Params.List {
+		for _, nm := range fl.Names {
+			params = append(params, info.Defs[nm])
+		}
+	}
+	uses := false
+	ast.Inspect(x, func(n ast.Node) bool {
+		if id, ok := n.(*ast.Ident); ok {
+			for _, p := range params {
+				if p != nil && info.Uses[id] == p {
+					uses = true
+				}
+			}
+		}
+		return true
+	})
+	if !uses {
+		return false
+	}
+	self := info.Defs[fd.Name]
+	var keys []string
+	bad := false
+	byFunc := map[ast.Node]*ScopeFunc{}
+	for _, sf := range sc.Funcs {
+		byFunc[sf.Node] = sf
+	}
+	core.AllFuncDecls(f.Pkg, func(cfd *ast.FuncDecl) {
+		if cfd.Body == nil {
+			return
+		}
+		// innermost function (declaration or literal) holding each call
+		var stack []ast.Node
+		stack = append(stack, cfd)
+		var visit func(n ast.Node) bool
+		visit = func(n ast.Node) bool {
+			switch y := n.(type) {
+			case *ast.FuncLit:
+				stack = append(stack, y)
+				ast.Inspect(y.Body, visit)
+				stack = stack[:len(stack)-1]
+				return false
+			case *ast.CallExpr:
+				fn := core.CalleeFunc(info, y)
+				if fn == nil || types.Object(fn) != self {
+					return true
+				}
+				caller := byFunc[stack[len(stack)-1]]
+				if caller == nil || len(y.Args) != len(params) {
+					bad = true
+					return true
+				}
+				subst := map[types.Object]string{}
+				for i, p := range params {
+					if p == nil {
+						continue
+					}
+					if s, ok := core.ConstString(info, y.Args[i]); ok {
+						subst[p] = fmt.Sprintf("%q", s)
+					} else {
+						subst[p] = core.NormExpr(info, y.Args[i])
+					}
+				}
+				keys = append(keys, "R-PANIC/P2 | "+siteKey(caller, kind+core.NormExprSubst(info, x, subst)))
+			case *ast.Ident:
+				if info.Uses[y] == self {
+					if p := core.PathTo(cfd.Body, y); len(p) >= 2 {
+						if c, isCall := p[len(p)-2].(*ast.CallExpr); !isCall || c.Fun != ast.Expr(y) {
+							bad = true
+						}
+					}
+				}
+			}
+			return true
+		}
+		ast.Inspect(cfd.Body, visit)
+	})
+	if bad || len(keys) == 0 {
+		return false
+	}
+	for _, k := range keys {
+		if !r.InTable(table, k) {
+			return false
+		}
+	}
+	for _, k := range keys {
+		r.TableKey(table, o, k)
+	}
+	o.Status += fmt.Sprintf(" [recorded at the %d call site(s) of %s, where this expression stood before it was moved into the helper]", len(keys), fd.Name.Name)
+	return true
 }
